@@ -243,10 +243,13 @@ type SPConf struct {
 	MaxSize                int64    `json:"max_size,omitempty"`
 	AllowMissingAttributes bool     `json:"allow_missing_attributes,omitempty"`
 	NilClock               bool     `json:"nil_clock,omitempty"`
-	// EncCertState replaces the certificate bytes of the field key store: "empty", "garbage", "nocert"
+	// EncCertState replaces the certificate bytes of the field key store: "empty", "garbage", "nocert";
+	// with PlainStores also "keystore-error" (GetKeyPair fails)
 	EncCertState string `json:"enc_cert_state,omitempty"`
 	// PlainStores: the field key stores are of a custom type instead of dsig.TLSCertKeyStore
 	PlainStores bool `json:"plain_key_stores,omitempty"`
+	// NilStore: IDPCertificateStore is left nil (no certificate store at all)
+	NilStore bool `json:"nil_store,omitempty"`
 }
 
 // Live mode: while it is on, Build hands out ONE long-lived instance per key configuration
@@ -316,6 +319,9 @@ func (c SPConf) Build() *saml2.SAMLServiceProvider {
 func (c SPConf) build() *saml2.SAMLServiceProvider {
 	sp := SP()
 	sp.IDPCertificateStore = Store(c.Store...)
+	if c.NilStore {
+		sp.IDPCertificateStore = nil
+	}
 	sp.Clock = Clock(T0.Add(time.Duration(c.ClockNs)))
 	if c.NilClock {
 		sp.Clock = nil
@@ -356,6 +362,9 @@ func (c SPConf) build() *saml2.SAMLServiceProvider {
 			ps := &PlainKeyStore{Signer: RSAKey(k)}
 			if len(chain) > 0 {
 				ps.Cert = chain[0]
+			}
+			if c.EncCertState == "keystore-error" {
+				ps = &PlainKeyStore{Err: fmt.Errorf("key store unavailable")}
 			}
 			sp.SPKeyStore = ps
 		}
